@@ -8,6 +8,7 @@
 package pipesim
 
 import (
+	"crypto/tls"
 	"net/url"
 	"bytes"
 	"context"
@@ -54,9 +55,22 @@ serve:
   decision:
     respond:
       verbose: true
+      with:
+        accepted: { code: 202 }
+        authentication_error: { code: 407 }
+        authorization_error: { code: 451 }
+        communication_error: { code: 504 }
+        internal_error: { code: 503 }
+        no_rule_error: { code: 410 }
   proxy:
     respond:
       verbose: true
+      with:
+        authentication_error: { code: 407 }
+        authorization_error: { code: 451 }
+        communication_error: { code: 504 }
+        internal_error: { code: 503 }
+        no_rule_error: { code: 410 }
 `
 	}
 	return head + `
@@ -115,6 +129,8 @@ mechanisms:
           url: http://introspect/introspect
         token_source:
           - header: x-token # spelled as yaml authors do; header names are case-insensitive
+          - header: Authorization
+            scheme: Bearer
           - query_parameter: tok_q
           - body_parameter: tok_b
         assertions:
@@ -127,6 +143,8 @@ mechanisms:
           url: http://introspect/introspect
         token_source:
           - header: x-token # spelled as yaml authors do; header names are case-insensitive
+          - header: Authorization
+            scheme: Bearer
           - query_parameter: tok_q
           - body_parameter: tok_b
         assertions:
@@ -297,9 +315,14 @@ type pipeline struct {
 	ehs      []ehSpec
 }
 
-func (p pipeline) yaml(id, path string, proxy bool) string {
+// what a rule may demand of a request besides its path: nothing, https, plain http, one host
+var routeGuards = []string{"", "    scheme: https\n", "    scheme: http\n", "    hosts:\n      - type: exact\n        value: svc.local\n"}
+
+func (p pipeline) yaml(id, path string, proxy bool) string { return p.yamlGuarded(id, path, proxy, 0) }
+
+func (p pipeline) yamlGuarded(id, path string, proxy bool, guard int) string {
 	var b strings.Builder
-	fmt.Fprintf(&b, "- id: %s\n  match:\n    routes:\n      - path: %s\n", id, path)
+	fmt.Fprintf(&b, "- id: %s\n  match:\n    routes:\n      - path: %s\n%s", id, path, routeGuards[guard])
 	if proxy {
 		b.WriteString("  forward_to:\n    host: upstream:8080\n")
 	}
@@ -417,12 +440,15 @@ type worlds struct {
 	// request line / body of the next send (robust-sim only); the zero values mean "GET" without body
 	reqMethod string
 	reqBody   []byte
+	// scheme and host of the next send; the zero values mean plain http to svc.local
+	reqHTTPS bool
+	reqHost  string
 	// Envoy passes the buffered request body in the string attribute unless pack_as_bytes is set
 	envoyBodyAsString bool
 	// Envoy passes the headers in header_map instead of headers when encode_raw_headers is set
 	envoyRawHeaders bool
-	// variants[0]: terse error responses, logging off (robust-sim: debug); variants[1]: verbose error responses and a
-	// trace level logger, so that code only executed for verbose answers or at trace level is part of what is decided
+	// variants[0]: terse error responses, logging off (robust-sim: debug); variants[1]: verbose error responses, every
+	// response code overridden (the positive one stays the only 2xx) and a trace level logger, so that code only executed for verbose answers or at trace level is part of what is decided
 	variants []worldVariant
 }
 
@@ -554,8 +580,9 @@ func getWorlds() (*worlds, error) {
 
 type creds struct {
 	basic, jwt, token, sess int // 0 none, 1 valid, 2 invalid (rejected by content), 3 malformed (not classified by the property)
-	jwtVia, tokVia         int // 0 header, 1 query parameter, 2 query parameter with a percent-encoded name, 3 parameter of a form body
-	tokShape               int // rejected tokens: 0 opaque, 1 JWT of a foreign issuer, 2 JWT naming the trusted issuer
+	jwtVia, tokVia         int // 0 header, 1 query parameter, 2 query parameter with a percent-encoded name, 3 parameter of a form body, 4 (token only) Authorization: Bearer
+	tokShape               int // rejected tokens: 0 opaque, 1 JWT of a foreign issuer, 2 JWT naming the trusted issuer, 3 opaque with a blank inside
+	jwtShape               int // rejected JWTs: 0 signature does not verify, 1 HMAC-signed naming the published key id, 2 signed by another key under the published key id, 3 expired
 	accept                 int // index into acceptValues
 	sibling                int // index into siblingCookies: another cookie sent along with the session cookie
 	ctSpelling             int // spelling of the form media type
@@ -616,6 +643,9 @@ func (c creds) headers() map[string]string {
 	if c.jwtVia != 0 {
 		delete(h, "X-Jwt")
 	}
+	if c.tokVia == 4 {
+		h["Authorization"] = []string{"Bearer ", "bearer "}[len(h["X-Token"])%2] + h["X-Token"]
+	}
 	if c.tokVia != 0 {
 		delete(h, "X-Token")
 	}
@@ -625,7 +655,7 @@ func (c creds) headers() map[string]string {
 var credNames = []string{"none", "valid", "invalid", "malformed"}
 
 func (c creds) String() string {
-	return fmt.Sprintf("basic=%s"+[]string{"", "(basic)", "(BASIC)"}[c.scheme]+" jwt=%s/%d token=%s/%d/%d sess=%s+%q body+%q accept=%q", credNames[c.basic], credNames[c.jwt], c.jwtVia, credNames[c.token], c.tokVia, c.tokShape, credNames[c.sess], siblingCookies[c.sibling], siblingParams[c.bodySibling], acceptValues[c.accept])
+	return fmt.Sprintf("basic=%s"+[]string{"", "(basic)", "(BASIC)"}[c.scheme]+" jwt=%s/%d/%d token=%s/%d/%d sess=%s+%q body+%q accept=%q", credNames[c.basic], credNames[c.jwt], c.jwtVia, c.jwtShape, credNames[c.token], c.tokVia, c.tokShape, credNames[c.sess], siblingCookies[c.sibling], siblingParams[c.bodySibling], acceptValues[c.accept])
 }
 
 func (c creds) allHeaders() map[string]string {
@@ -646,7 +676,21 @@ func (c creds) allHeaders() map[string]string {
 	case 1:
 		h["X-Jwt"] = simkeys.SignJWT(signKey, "k1", map[string]any{"iss": "iss1", "sub": "alice-jwt", "iat": now - 5, "exp": now + 3600})
 	case 2:
-		tok := simkeys.SignJWT(signKey, "k1", map[string]any{"iss": "iss1", "sub": "alice-jwt", "iat": now - 5, "exp": now + 3600})
+		claims := map[string]any{"iss": "iss1", "sub": "alice-jwt", "iat": now - 5, "exp": now + 3600}
+		switch c.jwtShape {
+		case 1:
+			// a JWT all right, signed with a shared secret instead of the issuer's key
+			h["X-Jwt"] = hmacJWT("k1", claims)
+		case 2:
+			h["X-Jwt"] = simkeys.SignJWT(otherKey, "k1", claims)
+		case 3:
+			claims["iat"], claims["exp"] = now-7200, now-3600
+			h["X-Jwt"] = simkeys.SignJWT(signKey, "k1", claims)
+		}
+		if c.jwtShape != 0 {
+			break
+		}
+		tok := simkeys.SignJWT(signKey, "k1", claims)
 		// a structurally valid JWS whose signature does not verify
 		i := strings.LastIndex(tok, ".")
 		sig := []byte(tok[i+1:])
@@ -668,6 +712,8 @@ func (c creds) allHeaders() map[string]string {
 			h["X-Token"] = "revoked"
 		case 1:
 			h["X-Token"] = simkeys.SignJWT(otherKey, "k9", map[string]any{"iss": "someone-else", "sub": "mallory", "iat": now - 5, "exp": now + 3600})
+		case 3:
+			h["X-Token"] = "revoked token"
 		default:
 			h["X-Token"] = simkeys.SignJWT(otherKey, "k9", map[string]any{"iss": "iss1", "sub": "mallory", "iat": now - 5, "exp": now + 3600})
 		}
@@ -702,6 +748,20 @@ func (c creds) of(kind string) int {
 		return c.sess
 	}
 	return 0
+}
+
+func hmacJWT(kid string, claims map[string]any) string {
+	sig, err := jose.NewSigner(jose.SigningKey{Algorithm: jose.HS256, Key: []byte("0123456789abcdef0123456789abcdef")}, (&jose.SignerOptions{}).WithType("JWT").WithHeader("kid", kid))
+	if err != nil {
+		panic(err)
+	}
+	payload, _ := json.Marshal(claims)
+	obj, err := sig.Sign(payload)
+	if err != nil {
+		panic(err)
+	}
+	tok, _ := obj.CompactSerialize()
+	return tok
 }
 
 // outcome classes of one authenticator for one request
@@ -839,7 +899,14 @@ func (w *worlds) send(entry, path string, hdr map[string]string) (ans answer, pa
 		if w.reqBody != nil {
 			body = bytes.NewReader(w.reqBody)
 		}
-		req := httptest.NewRequest(method, "http://svc.local"+path, body)
+		host := "svc.local"
+		if w.reqHost != "" {
+			host = w.reqHost
+		}
+		req := httptest.NewRequest(method, "http://"+host+path, body)
+		if w.reqHTTPS {
+			req.TLS = &tls.ConnectionState{}
+		}
 		for k, v := range hdr {
 			req.Header.Set(k, v)
 		}
@@ -857,7 +924,7 @@ func (w *worlds) send(entry, path string, hdr map[string]string) (ans answer, pa
 		ctx, cancel := context.WithTimeout(context.Background(), 20*time.Second)
 		defer cancel()
 		resp, err := w.envoy.Check(ctx, &envoy_auth.CheckRequest{Attributes: &envoy_auth.AttributeContext{Request: &envoy_auth.AttributeContext_Request{
-			Http: &envoy_auth.AttributeContext_HttpRequest{Method: map[bool]string{true: "GET", false: w.reqMethod}[w.reqMethod == ""], Scheme: "http", Host: "svc.local", Path: path, Headers: map[bool]map[string]string{false: lower(hdr)}[w.envoyRawHeaders], HeaderMap: rawHeaders(hdr, w.envoyRawHeaders), RawBody: map[bool][]byte{false: w.reqBody}[w.envoyBodyAsString], Body: map[bool]string{true: string(w.reqBody)}[w.envoyBodyAsString]},
+			Http: &envoy_auth.AttributeContext_HttpRequest{Method: map[bool]string{true: "GET", false: w.reqMethod}[w.reqMethod == ""], Scheme: map[bool]string{false: "http", true: "https"}[w.reqHTTPS], Host: map[bool]string{true: "svc.local", false: w.reqHost}[w.reqHost == ""], Path: path, Headers: map[bool]map[string]string{false: lower(hdr)}[w.envoyRawHeaders], HeaderMap: rawHeaders(hdr, w.envoyRawHeaders), RawBody: map[bool][]byte{false: w.reqBody}[w.envoyBodyAsString], Body: map[bool]string{true: string(w.reqBody)}[w.envoyBodyAsString]},
 		}}})
 		if err != nil {
 			ans.status = "grpc-error: " + err.Error()
@@ -953,7 +1020,8 @@ func pipeSim(r *simcore.Run) {
 	if entry == "proxy" {
 		target = w.proxy
 	}
-	ruleSet := "version: \"1alpha4\"\nname: sim\nrules:\n" + p.yaml("r1", "/svc/:id", entry == "proxy")
+	guard := []int{0, 0, 0, 1, 2, 3}[s.Draw(6, "route-guard")]
+	ruleSet := "version: \"1alpha4\"\nname: sim\nrules:\n" + p.yamlGuarded("r1", "/svc/:id", entry == "proxy", guard)
 	rs, err := world.ParseRuleSet("sim", ruleSet)
 	if err != nil {
 		r.Fail("infra", "ruleset-parse", "%v\n%s", err, ruleSet)
@@ -964,7 +1032,7 @@ func pipeSim(r *simcore.Run) {
 		return
 	}
 	defer target.Processor.OnDeleted(rs)
-	r.Logf("entry=%s variant=%d pipeline: %s", entry, variant, p)
+	r.Logf("entry=%s variant=%d guard=%q pipeline: %s", entry, variant, strings.TrimSpace(routeGuards[guard]), p)
 	r.Count(fmt.Sprintf("world-variant-%d", variant), 1)
 
 	faultPct := []int{0, 0, 20, 50}[s.Draw(4, "fault-rate")]
@@ -980,10 +1048,16 @@ func pipeSim(r *simcore.Run) {
 			c.jwtVia = []int{0, 0, 1, 2, 3}[s.Draw(5, "jwt-via")]
 		}
 		if c.token == 1 || c.token == 2 {
-			c.tokVia = []int{0, 0, 1, 2, 3}[s.Draw(5, "token-via")]
+			c.tokVia = []int{0, 0, 1, 2, 3, 4}[s.Draw(6, "token-via")]
+			if c.tokVia == 4 && c.basic != 0 {
+				c.tokVia = 0 // one Authorization header per request
+			}
 		}
 		if c.token == 2 {
-			c.tokShape = s.Draw(3, "token-shape")
+			c.tokShape = s.Draw(4, "token-shape")
+		}
+		if c.jwt == 2 {
+			c.jwtShape = s.Draw(4, "jwt-shape")
 		}
 		c.accept = []int{0, 0, 0, 1, 2, 3, 4, 5}[s.Draw(8, "accept")]
 		if c.jwtVia == 3 || c.tokVia == 3 {
@@ -1001,6 +1075,13 @@ func pipeSim(r *simcore.Run) {
 			path = "/other"
 		}
 		path += c.query()
+		// the rule may be restricted to a scheme or a host; most requests satisfy it, some arrive the other way
+		https, otherHost := guard == 1, false
+		if guard != 0 && s.Draw(3, "request-misses-the-guard") == 2 {
+			https, otherHost = guard == 2, guard == 3
+		} else if guard == 0 {
+			https = s.Draw(4, "https") == 3
+		}
 		cur = reqState{pdpAllow: s.Draw(4, "pdp-says") != 0}
 		// one outcome per party and request, decided before heimdall runs
 		faults := map[string]simnet.Fault{}
@@ -1034,7 +1115,9 @@ func pipeSim(r *simcore.Run) {
 			// the rule matches every method; Envoy hands the body over as string (its default) or as bytes (pack_as_bytes)
 			w.reqMethod, w.reqBody, w.envoyBodyAsString = "POST", []byte(b), s.Draw(2, "envoy-body-as-string") == 1
 		}
+		w.reqHTTPS, w.reqHost = https, map[bool]string{true: "other.local"}[otherHost]
 		ans, panicked := w.send(entry, path, c.headers())
+		w.reqHTTPS, w.reqHost = false, ""
 		w.reqMethod, w.reqBody, w.envoyBodyAsString, w.envoyRawHeaders = "", nil, false, false
 		w.net.Plan = nil
 		called := map[string]int{}
@@ -1053,12 +1136,16 @@ func pipeSim(r *simcore.Run) {
 			}
 		}
 		// (the query may carry a freshly signed token: its bytes differ per execution and stay out of the trace)
-		r.Logf("req%d %s %s [%s] pdp-allow=%v faults=[%s] -> positive=%v status=%s user=%q upstream-hits=%d calls=%v", q, strings.SplitN(path, "?", 2)[0], entry, c, cur.pdpAllow, strings.Join(fl, " "), ans.positive, ans.status, ans.user, ans.upHits, callOrder)
+		r.Logf("req%d %s https=%v other-host=%v %s [%s] pdp-allow=%v faults=[%s] -> positive=%v status=%s user=%q upstream-hits=%d calls=%v", q, strings.SplitN(path, "?", 2)[0], https, otherHost, entry, c, cur.pdpAllow, strings.Join(fl, " "), ans.positive, ans.status, ans.user, ans.upHits, callOrder)
 		if panicked != nil {
 			r.FailProp("C01", "panic-escaped-entry-point", entry, "a panic escaped the %s entry point: %v", entry, panicked)
 			break
 		}
-		matched := strings.HasPrefix(path, "/svc/1")
+		guardMet := guard == 0 || (guard == 1 && https) || (guard == 2 && !https) || (guard == 3 && !otherHost)
+		matched := strings.HasPrefix(path, "/svc/1") && guardMet
+		if !guardMet {
+			r.Count("requests-missing-the-scheme-or-host-of-the-rule", 1)
+		}
 		var (
 			allowed, unknown bool
 			why              string
